@@ -87,6 +87,13 @@ impl Header for Multiboot2BasicHeader {
     proof fn lemma_hdr_layout(&self) {}
 //@extractall multiboot2-header/src/header.rs :: impl Header for Multiboot2BasicHeader
 //@  fn payload_len: rewrite /(?<![:\w])size_of::<Self>\(\)/ => /mem::size_of::<Self>()/ x*
+//@  fn set_size: spec:
+//@        ensures
+//@            // C10/C12: after set_size the header is consistent again: same magic and architecture,
+//@            // length = the new size, checksum satisfying the congruence
+//@            final(self).header_magic == old(self).header_magic, final(self).arch == old(self).arch,
+//@            final(self).length == total_size,
+//@            checksum_ok(final(self).header_magic, final(self).arch, final(self).length, final(self).checksum),
 //@end
 }
 
